@@ -222,6 +222,35 @@ pub fn check_size_in(arg: &str, constant: Option<u64>, ids: &Ids, case: &Value, 
             }
         }
     }
+    // The same instantiation written as an anonymous component, at the top level and inside a
+    // loop body (desugared by the real front end: route B).
+    if !large {
+        // (one directory per process, one sub-directory per thread; removed at the end of `run`)
+        static ANON_DIR: std::sync::OnceLock<std::path::PathBuf> = std::sync::OnceLock::new();
+        let dir = ANON_DIR.get_or_init(|| crate::infra::work_dir("c11-anon")).clone();
+        for (shape, body) in [
+            ("anon", format!("    signal o[400];\n    o <== Num2Bits({arg})(in);\n")),
+            ("anon-in-loop", format!("    signal o[2][400];\n    for (var i = 0; i < 2; i++) {{\n        o[i] <== Num2Bits({arg})(in);\n    }}\n")),
+        ] {
+            let src = format!("pragma circom 2.1.0;\ntemplate Num2Bits(m) {{\n    signal input in;\n    signal output out[400];\n    out[0] <== in;\n}}\ntemplate M(n) {{\n    signal input in;\n{prelude}{body}}}\n");
+            let expect = !matches!(constant, Some(n) if n < 254);
+            let tdir = dir.join(format!("{:?}", std::thread::current().id()).replace(|c: char| !c.is_ascii_alphanumeric(), ""));
+            if let Ok(cfg) = pipe::lift_via_runner_curve(&src, &tdir, "M", false, false, Curve::Bn254) {
+                if let Ok(reports) = pipe::run_passes(&cfg) {
+                    let n = reports.iter().filter(|r| r.id() == ids.nonstrict).count();
+                    if (n > 0) != expect {
+                        out.push(Violation {
+                            signature: format!("nonstrict/{}/{shape}", if expect { "missing" } else { "spurious" }),
+                            what: format!("`Num2Bits({arg})` as an anonymous component ({shape}) under BN254: {n} non-strict conversion findings, expected {}", expect as usize),
+                            case: case.clone(),
+                            expected: format!("{}", expect as usize),
+                            observed: format!("{n}\n{src}"),
+                        });
+                    }
+                }
+            }
+        }
+    }
     if large {
         return out;
     }
@@ -320,7 +349,7 @@ pub fn run(run: &Run) {
     run.set_rule(
         "table parsed from doc/analysis_passes.md (26 names x 2 curves, Circomlib spelling) + ~9 near-miss \
          names each, x 3 instantiation forms x 3 curves; Num2Bits/Bits2Num/LessThan sizes: every \
-         constant 0..300 and non-constant forms {n, n+1, k (local), j (assigned in a nested if), 2*127, 254-1, 127+127} x 3 curves, five sizes again behind 1500 constant definitions, the LessThan \
+         constant 0..300 and non-constant forms {n, n+1, k (local), j (assigned in a nested if), 2*127, 254-1, 127+127} x 3 curves, five sizes again behind 1500 constant definitions, every size also as an anonymous component at the top level and inside a loop body, the LessThan \
          clause in 7 wirings (component array, separate names, same name in sibling scopes both ways, shadowing \
          in a nested block, declared first and wired later, two-dimensional array); \
          every upper/lower-case spelling of the three curve names and every string one edit away \
@@ -418,6 +447,7 @@ pub fn run(run: &Run) {
         run.nontrivial(1);
         run.violations(check_size_in(arg, *constant, &ids, &case, true));
     });
+    let _ = std::fs::remove_dir_all(std::path::PathBuf::from(crate::infra::VERIF_DIR).join(".work").join(format!("c11-anon-{}", std::process::id())));
     // Spellings.
     run.set_extra("less_than_wiring_shapes_judged", json!(SHAPES_JUDGED.load(std::sync::atomic::Ordering::Relaxed)));
     run.set_extra("less_than_wiring_shapes_not_lifted", json!(SHAPES_NOT_LIFTED.load(std::sync::atomic::Ordering::Relaxed)));
